@@ -392,7 +392,7 @@ type Term struct {
 	Kids  []*Term
 	Depth int  // atoms 1, combinator = 1 + max(kids) (empty And/Or: 2)
 	HasFN bool // contains a non-comparable leaf
-	Lvl   int  // atoms: 0 core set, 1 small set, 2 medium set, 3 full set only
+	Lvl   int  // atoms: 0 core set, 1 small set, 2 medium set, 3 large set, 4 full set only
 	mk    func() filter.Filter
 	ref   func(metav1.Object) bool
 }
@@ -471,13 +471,16 @@ func comb(ctor string, kids ...*Term) *Term {
 }
 
 // closure returns Not/And/Or (arity 0..2) applied to base.
-func closure(base []*Term) []*Term {
+func closure(base []*Term) []*Term { return closure2(base, base) }
+
+// closure2: arity 0 and 1 over unary, arity 2 over binary.
+func closure2(unary, binary []*Term) []*Term {
 	out := []*Term{comb("And"), comb("Or")}
-	for _, t := range base {
+	for _, t := range unary {
 		out = append(out, comb("Not", t), comb("And", t), comb("Or", t))
 	}
-	for _, t := range base {
-		for _, u := range base {
+	for _, t := range binary {
+		for _, u := range binary {
 			out = append(out, comb("And", t, u), comb("Or", t, u))
 		}
 	}
@@ -896,7 +899,7 @@ func lvl(t *Term, l int) *Term { t.Lvl = l; return t }
 var nsEntries = []nsname.NSName{{Namespace: "a", Name: "x"}, {Namespace: "a", Name: "y"}, {Namespace: "b", Name: "x"}, {Namespace: "a"}, {Name: "x"}}
 
 // coreAtoms: Null, All, NSName, Labels, LabelSelector, Selector (the constructors of package
-// filter whose meaning C18 pins down). Lvl: 0 core, 1 small, 2 medium, 3 full.
+// filter whose meaning C18 pins down). Lvl: 0 core, 1 small, 2 medium, 3 large (all of them).
 func coreAtoms() []*Term {
 	out := []*Term{tNull(), tAll()}
 	// NSName: all entry lists of length <= 2 (both orders, duplicates)
@@ -1029,8 +1032,10 @@ func typedAtoms() []*Term {
 		switch fmt.Sprint(ix) {
 		case "[]", "[0]", "[3]", "[0 1]", "[1 0]":
 			return 2
+		case "[1]", "[2]", "[0 2]", "[0 0]":
+			return 3
 		}
-		return 3
+		return 4
 	}
 	for _, kind := range podKinds {
 		ws := c17Workloads(kind)
